@@ -418,8 +418,11 @@ class Interp:
     def __init__(self, fi, program, inline=None, loop_policy=None,
                  noreturn=None, assume=None, max_inline=3, bind=None,
                  try_raises=True, extra_pure=(), self_class=None,
-                 exact_loops=False, virtual=None):
+                 exact_loops=False, virtual=None, rewrite=None):
         self.fi = fi
+        # a rule's checked data-structure invariant, as a rewrite of
+        # attribute terms (e.g. "the name of a child's info is its key")
+        self.rewrite = rewrite
         # methods of the receiver that exist only in the reference (a private
         # helper the live code has inlined): name -> reference function
         self.virtual = virtual or {}
@@ -931,7 +934,10 @@ class Interp:
                     and node.attr in NAMED_FIELDS.get(base[1][1], ()):
                 return ("index", base, const(
                     NAMED_FIELDS[base[1][1]].index(node.attr)))
-            return ("attr", base, node.attr)
+            t = ("attr", base, node.attr)
+            if self.rewrite is not None:
+                t = self.rewrite(t)
+            return t
         if isinstance(node, ast.Tuple):
             return ("tuple", tuple(self.eval(e, env) for e in node.elts))
         if isinstance(node, ast.List) and any(
